@@ -9,7 +9,8 @@ import numpy as np
 
 ID = "C11"
 PROPS_FILE = "theories/Props/C11.v"
-EXTRACT = ("theories/Extract/XC11.v", "c11", ["entry_run", "entry_ref", "entry_check", "entry_fmul", "entry_fmul32", "entry_otsu"])
+EXTRACT = ("theories/Extract/XC11.v", "c11", ["entry_run", "entry_ref", "entry_check", "entry_fmul", "entry_fmul32", "entry_otsu",
+                                               "entry_geom", "entry_check_po", "entry_check_blocks"])
 PYX = {}
 CASE_TIMEOUT = 120
 METHODS = ["Otsu", "MoG", "Background", "RobustBackground", "RidlerCalvard", "Kapur", "MCT"]
@@ -112,13 +113,25 @@ def _labels(rng, H, W, top=120):
     else:                                          # label-free background: every pixel belongs to an object
         k = int(rng.randint(1, 4))
         lab[:] = 1 + (np.arange(W)[None, :] * k // W) + k * (np.arange(H)[:, None] * 2 // H)
-    if rng.rand() < 0.4:                           # sparse numbering (absent label numbers), within every int dtype
+    if rng.rand() < 0.65:
+        # sparse, non-consecutive numbering, NOT in spatial order, within the label dtype's range: gaps before
+        # the first label (1 absent), between labels, and a last label far beyond the others
         ids = [int(x) for x in np.unique(lab) if x > 0]
-        new = sorted(rng.choice(np.arange(1, top), len(ids), replace=False).tolist())
-        out = np.zeros_like(lab)
-        for o, nw in zip(ids, new):
-            out[lab == o] = nw
-        lab = out
+        rng.shuffle(ids)
+        style = int(rng.randint(4))
+        cur = 1 if style == 1 else int(rng.randint(2, 6))          # style 1: no gap at the start
+        new = []
+        for n_, _ in enumerate(ids):
+            new.append(cur)
+            cur += 1 if (style == 2 and n_ + 2 < len(ids)) else int(rng.randint(2, 9))   # style 2: gap only before the last
+        if style == 3 and new:
+            new[-1] = top - 1 - int(rng.randint(3))                 # far end of the dtype's range
+        new = [min(v, top - 1) for v in new]
+        if len(set(new)) == len(new):
+            out = np.zeros_like(lab)
+            for o, nw in zip(ids, new):
+                out[lab == o] = nw
+            lab = out
     return lab
 
 
@@ -151,11 +164,16 @@ def _thr_case(rng, method, mod, small=False):
     else:
         sizes = [12, 16, 20, 24] if small else [12, 16, 20, 24, 32, 40, 48]
     H, W = int(rng.choice(sizes)), int(rng.choice(sizes))
+    if mod == 1 and method != "MoG" and rng.rand() < 0.06:
+        # sides for which int(nblocks * increment) rounds down (59 = 29 blocks of window 2 ending at 58; 61 = 7 of 8)
+        H, W = int(rng.choice([59, 61, 24])), int(rng.choice([59, 61, 16]))
     kind = str(rng.choice(["uni", "bimodal", "quant", "dark", "uni", "bimodal", "quant", "dark", "const", "two"]))
     img = _image(rng, H, W, kind)
     mask = _mask(rng, H, W)
     wins = [w for w in (2, 3, 4, 5, 6, 8, 10) if min(H, W) // w >= 2]
     window = int(rng.choice(wins))
+    if max(H, W) > 48:
+        window = int(rng.choice([2, 8]))
     u = rng.rand()
     if u < 0.3:
         lo, hi = 0.0, 1.0
@@ -352,6 +370,74 @@ def _same_outcome(a, b):
     return _same(a[2], b[2]) and _same(a[1], b[1])
 
 
+METHOD_FN = {"Otsu": "get_otsu_threshold", "MoG": "get_mog_threshold", "Background": "get_background_threshold",
+             "RobustBackground": "get_robust_background_threshold", "RidlerCalvard": "get_ridler_calvard_threshold",
+             "Kapur": "get_kapur_threshold", "MCT": "get_maximum_correlation_threshold"}
+
+
+def _feq(a, b):
+    a, b = float(a), float(b)
+    return a == b or (a != a and b != b)
+
+
+def _adaptive_observed(T, method, img, g1, mk, window, kw, lay):
+    """get_adaptive_threshold with a spy on RectBivariateSpline (what the block loop hands to the spline),
+    the block partition recomputed here with the code's float expressions (compared with Model.AdaptiveGeom
+    by the parent), the block thresholds expected from the global method on each block's masked pixels, and
+    the spline recomputed from those."""
+    import scipy.interpolate as SI
+    real = SI.RectBivariateSpline
+    rec = {}
+
+    class Spy(object):
+        def __init__(self, x, y, z, bbox=None, kx=3, ky=3, s=0):
+            rec.update(x=np.array(x, float), y=np.array(y, float), z=np.array(z, float), bbox=[float(v) for v in bbox],
+                       kx=int(kx), ky=int(ky), s=s, n=rec.get("n", 0) + 1)
+            self.r = real(x, y, z, bbox=bbox, kx=kx, ky=ky, s=s)
+
+        def __call__(self, xs, ys, *a, **k):
+            rec.update(xs=np.array(xs, float), ys=np.array(ys, float), extra=bool(a or k))
+            return self.r(xs, ys, *a, **k)
+    SI.RectBivariateSpline = Spy
+    try:
+        raw_l = T.get_adaptive_threshold(method, _layout(img, lay), g1, mk, adaptive_window_size=window, **kw)
+    finally:
+        SI.RectBivariateSpline = real
+    H, W = img.shape
+    geo = []
+    for size in (H, W):
+        n = size // window
+        inc = float(size) / float(n)
+        geo.append({"n": n, "bounds": [int(i * inc) for i in range(n + 1)], "start": int(inc / 2),
+                    "end": int((n - 0.5) * inc), "out_end": int(n * inc)})
+    order = min(3, min(geo[0]["n"], geo[1]["n"]) - 1)
+    exp = np.zeros((geo[0]["n"], geo[1]["n"]))
+    for i in range(geo[0]["n"]):
+        i0, i1 = geo[0]["bounds"][i], geo[0]["bounds"][i + 1]
+        for j in range(geo[1]["n"]):
+            j0, j1 = geo[1]["bounds"][j], geo[1]["bounds"][j + 1]
+            bm = None if mk is None else np.asarray(mk)[i0:i1, j0:j1].astype(bool)
+            exp[i, j] = T.get_global_threshold(method, img[i0:i1, j0:j1].copy(), None if bm is None else bm.copy(), **kw)
+    st = {"geom": geo + [order], "calls": rec.get("n", 0)}
+    if rec.get("n", 0) == 1 and "xs" in rec:
+        st["z_shape_ok"] = bool(rec["z"].shape == exp.shape)
+        st["z_got"] = rec["z"].ravel().tolist()
+        st["z_exp"] = exp.ravel().tolist()
+        st["knots_ok"] = bool(np.array_equal(rec["x"], np.linspace(geo[0]["start"], geo[0]["end"], geo[0]["n"]))
+                              and np.array_equal(rec["y"], np.linspace(geo[1]["start"], geo[1]["end"], geo[1]["n"])))
+        st["bbox_ok"] = bool(rec["bbox"] == [0.5, H - 0.5, 0.5, W - 0.5])
+        st["order_ok"] = bool(rec["kx"] == order and rec["ky"] == order and rec["s"] == 0 and not rec["extra"])
+        xo = np.linspace(0.5, geo[0]["out_end"] - 0.5, H)
+        yo = np.linspace(0.5, geo[1]["out_end"] - 0.5, W)
+        st["abscissae_ok"] = bool(np.array_equal(rec["xs"], xo) and np.array_equal(rec["ys"], yo))
+        if st["z_shape_ok"] and np.all(np.isfinite(exp)):
+            again = real(np.linspace(geo[0]["start"], geo[0]["end"], geo[0]["n"]),
+                         np.linspace(geo[1]["start"], geo[1]["end"], geo[1]["n"]), exp,
+                         bbox=(0.5, H - 0.5, 0.5, W - 0.5), kx=order, ky=order)(xo, yo)
+            st["spline_ok"] = bool(np.array_equal(np.asarray(raw_l), again, equal_nan=True))
+    return raw_l, st
+
+
 def _impl_thr(case):
     import centrosome.threshold as T
     img, mask, labels, kw = _setup(case)
@@ -418,11 +504,19 @@ def _impl_thr(case):
     mk = _layout(mask, lay)
     raw_g = T.get_global_threshold(method, _layout(img, lay), mk, **kw)
     out["raw_g"] = float(raw_g)
+    # dispatch: the method name selects the method's own function (and the empty-mask rule)
+    if mask is not None and not inmask.any():
+        out["dispatch_ok"] = _feq(raw_g, 1)
+    else:
+        direct = _outcome(lambda: (getattr(T, METHOD_FN[method])(_layout(img, lay), _layout(mask, lay), **kw), 0))
+        out["dispatch_ok"] = bool(direct[0] == "ok" and _feq(direct[1], raw_g))
+    # dtype of the local thresholds: the image's in per-object mode (np.ones(image.shape, image.dtype)), binary64 otherwise
+    out["dtype_ok"] = bool(out["scalar"] or str(l1.dtype) == (case["dtype"] if mod == "PerObject" else "float64"))
     if mod == "Global":
         out["local"] = float(l1)
         return out
     if mod == "Adaptive":
-        raw_l = T.get_adaptive_threshold(method, _layout(img, lay), g1, mk, adaptive_window_size=window, **kw)
+        raw_l, out["ad"] = _adaptive_observed(T, method, img, g1, mk, window, kw, lay)
     else:
         lb = _layout(labels, lay)
         raw_l = T.get_per_object_threshold(method, _layout(img, lay), g1, mk, lb, lo, hi, **kw)
@@ -443,6 +537,16 @@ def _impl_thr(case):
             except Exception as e:
                 po[str(k)] = "exc:" + type(e).__name__     # another object's pixels made the call raise
         out["po"] = po
+        # structure: every pixel of object l carries G(image[mask & (labels == l)]); every other pixel the fill 1.0
+        tab = []
+        for k in [int(x) for x in np.unique(lab) if x > 0]:
+            om = (lab == k) & inmask
+            d = _outcome(lambda: (T.get_global_threshold(method, _layout(img, lay), _layout(om, lay), **kw), 0))
+            tab.append([k, float(d[1]) if d[0] == "ok" else "exc:" + d[1]])
+        out["po_tab"] = tab
+        out["po_labels"] = np.asarray(lab).astype(int).ravel().tolist()
+        out["po_inmask"] = inmask.ravel().astype(int).tolist()
+        out["po_raw"] = np.asarray(raw_l).astype(float).ravel().tolist()
     out["raw_dtype_ok"] = bool(np.asarray(raw_l).dtype == l1.dtype or mod == "Adaptive")
     raw_l = np.asarray(raw_l).astype(float)
     l1 = np.asarray(l1).astype(float)
@@ -595,6 +699,10 @@ def model(ctx, cases, outs):
     # the interpreter on the regenerated program AND the specified closed form (Spec.ThresholdSpec.ref_run)
     for k, r, r2 in zip(ti, ctx.run_model("entry_run", args), ctx.run_model("entry_ref", args)):
         res[k] = [r, r2]
+    gi = [k for k in ti if cases[k]["mod"] == 1 and isinstance(outs[k], dict) and "ad" in outs[k]]
+    ga = [[len(cases[k]["img"]), len(cases[k]["img"][0]), cases[k]["window"]] for k in gi]
+    for k, r in zip(gi, ctx.run_model("entry_geom", ga)):
+        res[k] = res[k] + [r]
     oi = [k for k, c in enumerate(cases) if c["fn"] == "otsu" and not _bad(outs[k])]
     for k, r in zip(oi, ctx.run_model("entry_otsu", [cases[k]["ints"] for k in oi])):
         res[k] = r
@@ -661,10 +769,15 @@ def compare(case, out, m):
             return None
         if not out["scalar"] and not out["raw_dtype_ok"]:
             return "raw and final per-object thresholds have different dtypes"
-        for which, mm in zip(("model of the regenerated program", "specified closed form"), m):
+        for which, mm in zip(("model of the regenerated program", "specified closed form"), m[:2]):
             d = _cmp_run(out, mm)
             if d:
                 return "%s: %s" % (which, d)
+        if len(m) > 2:
+            g = out["ad"]["geom"]
+            mine = [[a["n"], a["bounds"], a["start"], a["end"], a["out_end"]] for a in g[:2]] + [g[2]]
+            if m[2] != mine:
+                return "adaptive geometry: code's float expressions give %s, Model.AdaptiveGeom %s" % (mine, m[2])
         return None
     # otsu: Q model on the integer data; compare when the arg-min is well separated
     if _bad(out):
@@ -704,6 +817,7 @@ def _fresh_replay(ctx, cases, outs, res):
 
 def check(ctx, cases, outs):
     res = [None] * len(cases)
+    si, sargs = [], []
     ci, args = [], []
     bi, bargs = [], []
     for k, (c, o) in enumerate(zip(cases, outs)):
@@ -745,6 +859,49 @@ def check(ctx, cases, outs):
                 if plain:
                     res[k] = "get_threshold raised %s on a valid input (default keyword arguments)" % o["raised"]
                 continue
+            if not o["dispatch_ok"]:
+                res[k] = ("get_global_threshold('%s', ...) differs from %s(image, mask, **kwargs) / the empty-mask rule"
+                          % (c["method"], METHOD_FN[c["method"]]))
+                continue
+            if not o["dtype_ok"]:
+                res[k] = "dtype of the local thresholds is not the expected one (image dtype per object, float64 otherwise)"
+                continue
+            if "ad" in o:
+                a = o["ad"]
+                badf = [f for f in ("z_shape_ok", "knots_ok", "bbox_ok", "order_ok", "abscissae_ok", "spline_ok")
+                        if a.get(f) is False]
+                if a["calls"] != 1 or badf:
+                    res[k] = "adaptive structure: %s (spline constructed %d times)" % (",".join(badf) or "-", a["calls"])
+                    continue
+                pairs = [(x, y) for x, y in zip(a["z_got"], a["z_exp"])]
+                if any((x != x) != (y != y) for x, y in pairs):
+                    res[k] = "adaptive structure: a block threshold is NaN on one side only"
+                    continue
+                pairs = [(x, y) for x, y in pairs if x == x and math.isfinite(x) and math.isfinite(y)]
+                si.append(k)
+                sargs.append(("entry_check_blocks", [[_q(x) for x, _ in pairs], [_q(y) for _, y in pairs]]))
+            if "po_tab" in o:
+                excs = [t for t in o["po_tab"] if isinstance(t[1], str)]
+                if excs:
+                    res[k] = "per-object structure: the global method raised on object %s alone but not in the loop" % excs[0][0]
+                    continue
+                nanl = {t[0] for t in o["po_tab"] if not math.isfinite(t[1])}
+                px = []
+                bad_nan = False
+                for l, m_, v in zip(o["po_labels"], o["po_inmask"], o["po_raw"]):
+                    if l in nanl and m_:
+                        tv = [t[1] for t in o["po_tab"] if t[0] == l][0]
+                        bad_nan = bad_nan or not _feq(tv, v)
+                    elif not math.isfinite(v):
+                        bad_nan = True
+                    else:
+                        px.append([l, m_, _q(v)])
+                if bad_nan:
+                    res[k] = "per-object structure: non-finite raw threshold where a finite one is expected (or vice versa)"
+                    continue
+                si.append(k)
+                sargs.append(("entry_check_po", [1 if o.get("f32") else 0,
+                                                 [[t[0], _q(t[1])] for t in o["po_tab"] if t[0] not in nanl], px]))
             badk = [p for p, ok in o.get("po", {}).items() if ok is not True]
             if badk:
                 res[k] = "S1 per object: pixels outside object %s changed its raw per-object threshold" % ",".join(badk)
@@ -787,6 +944,20 @@ def check(ctx, cases, outs):
                     elif not o[name]["perm"] or not o[name]["nan"]:
                         res[k] = "S6 %s is not invariant under permutation / NaN insertion" % name
     _fresh_replay(ctx, cases, outs, res)
+    for entry in ("entry_check_po", "entry_check_blocks"):
+        ks = [(k, a) for k, (e, a) in zip(si, sargs) if e == entry]
+        for (k, _), r in zip(ks, ctx.run_model(entry, [a for _, a in ks]) if ks else []):
+            if r != 1 and res[k] is None:
+                o = outs[k]
+                if entry == "entry_check_po":
+                    res[k] = ("S1 per-object structure (Spec.ThresholdStruct.check_per_object false): a pixel of an object "
+                              "does not carry get_global_threshold(method, image, mask & (labels == l)) / an outside pixel "
+                              "not the fill value; labels present %s, per-label expectation %s, raw values present %s" % (
+                                  sorted(set(o["po_labels"]))[:12], o["po_tab"][:8], sorted(set(o["po_raw"]))[:8]))
+                else:
+                    res[k] = ("S1 adaptive structure (Spec.ThresholdStruct.all_eq false): a block threshold handed to the "
+                              "spline differs from the global method on that block's masked pixels: got %s expected %s" % (
+                                  o["ad"]["z_got"][:6], o["ad"]["z_exp"][:6]))
     for k, r in zip(ci, ctx.run_model("entry_check", args)):
         if r != 1:
             c, o = cases[k], outs[k]
